@@ -132,6 +132,58 @@ def wide_family(kind, st):
     raise ValueError(kind)
 
 
+def pythagorean_family(kind):
+    """every primitive Pythagorean triple with hypotenuse <= 400 (legs up to 399, e.g. 20-99-101, 57-176-185), in both leg orders and
+    directions, as segments / right triangles: the lengths are integers and must come out exactly"""
+    import math
+    tr = []
+    for m in range(2, 20):
+        for n in range(1, m):
+            if (m - n) % 2 == 1 and math.gcd(m, n) == 1:
+                a, b, c = m * m - n * n, 2 * m * n, m * m + n * n
+                if c <= 400:
+                    tr += [(a, b), (b, a), (2 * a, 2 * b), (3 * b, 3 * a)]
+    segs = [((1, 2), (1 + a, 2 + b)) for a, b in tr] + [((5, 3), (5 - a, 3 + b)) for a, b in tr[::3]] + [((0, 0), (-a, -b)) for a, b in tr[1::3]]
+    tris = [((0, 0), (a, 0), (a, b), (0, 0)) for a, b in tr] + [((2, 1), (2, 1 + b), (2 + a, 1), (2, 1)) for a, b in tr[::2]]
+    if kind == "line":
+        return segs + [s + (s[0],) for s in segs[::5]]
+    if kind == "ring":
+        return tris
+    if kind == "multiline":
+        return [(s, t) for s, t in zip(segs, segs[3:])]
+    if kind == "polygon":
+        return [(t,) for t in tris]
+    if kind == "multipolygon":
+        return [((t,), (u,)) for t, u in zip(tris, tris[5:])][::3]
+    return []
+
+
+def long_family(kind):
+    """single rings / lines with many vertices (67..1031: blocked or vectorised code paths only show up beyond some count):
+    staircases with integer coordinates, either direction, plus a comb with a hole"""
+    out = []
+    for nsteps in (30, 31, 32, 33, 62, 63, 64, 65, 127, 128, 129, 255, 257, 515):
+        pts = [(0, 0)]
+        for i in range(nsteps):
+            pts.append((2 * i + 2, 3 * i))
+            pts.append((2 * i + 2, 3 * i + 3))
+        pts.append((0, 3 * nsteps))
+        ring = tuple(pts) + ((0, 0),)                       # 2*nsteps + 3 vertices
+        out.append((nsteps, ring))
+    if kind == "line":
+        return [r[:-1] for _, r in out] + [r[::-1] for _, r in out[::3]]
+    if kind == "ring":
+        return [r for _, r in out] + [r[::-1] for _, r in out[::2]]
+    if kind == "multiline":
+        return [(r[:-1], r[::-1]) for _, r in out[::2]]
+    hole = ((1, 1), (1, 2), (2, 2), (1, 1))
+    if kind == "polygon":
+        return [(r,) for _, r in out] + [(r[::-1],) for _, r in out[1::2]] + [(r, hole) for n_, r in out[::3]]
+    if kind == "multipolygon":
+        return [((r,), (tuple((x + 5000, y) for x, y in r[::-1]), tuple((x + 5000, y) for x, y in hole))) for _, r in out[::2]]
+    return []
+
+
 def expected_measures(kind, e, s):
     """(area, (length_exact, length)) of element e (lattice coords) after scaling by s"""
     if e is None:
@@ -297,6 +349,12 @@ def small_arrays(col, kind, st):
             check_chunk(col, kind, elems, st, (1, 0, 0), premodel=True)
 
 
+def _maxabs(e):
+    if isinstance(e, (tuple, list)):
+        return max([_maxabs(v) for v in e] or [0])
+    return abs(e)
+
+
 def plan(ctx):
     units = []
     for kind in O.KINDS:
@@ -312,6 +370,12 @@ def plan(ctx):
                 units.append((kind, st, far[-150:], (4, -(2 ** 30) + 1, 2 ** 29 + 3)))
             if kind in ("polygon", "multipolygon", "multiline") and st in ("float64", "int32"):
                 units.append((kind, st, "small_arrays", (1, 0, 0)))
+            if st in ("float64", "int32", "int16") or (ctx.thorough and st != "float32"):
+                for fam2 in (pythagorean_family(kind), long_family(kind)):
+                    if st == "int16":
+                        fam2 = [e for e in fam2 if _maxabs(e) < 8000]
+                    for c in range(0, len(fam2), 120):
+                        units.append((kind, st, fam2[c:c + 120], (1, 0, 0) if st == "int16" or c % 240 else (1, -1000, 77)))
             wf = wide_family(kind, st)
             for c in range(0, len(wf), 2500):
                 units.append((kind, st, wf[c:c + 2500], (1, 0, 0)))
